@@ -229,7 +229,7 @@ class Ctx:
         return res
 
     def validate_trace(self, module, trace_path, *, cfg=None, trace_name="trace.ndjson",
-                       files=None, dfs=False, timeout=900, n_traces=1):
+                       files=None, dfs=False, timeout=900, n_traces=1, cfg_text=None):
         """Trace validation: the *_Trace module consumes trace_name line by line.
 
         Convention: the module prints <<"MATCHED", k>> from its POSTCONDITION where k is
@@ -240,7 +240,7 @@ class Ctx:
         fs = dict(files or {})
         fs[trace_name] = trace_path
         res = self.tlc(module, cfg, files=fs, workers=1, dfs=dfs, timeout=timeout,
-                       allow_violation=True, count=False)
+                       allow_violation=True, count=False, cfg_text=cfg_text)
         m = res.printed("MATCHED")
         n = res.printed("TRACELEN")
         if (not m or not n) and res.violated and res.violated != "postcondition":
@@ -263,7 +263,7 @@ class Ctx:
         return accepted, matched, total, res
 
     def validate_runs(self, module, recs, *, reset="reset", cfg=None, files=None, dfs=False,
-                      timeout=900, max_rejects=12):
+                      timeout=900, max_rejects=12, cfg_text=None):
         """Validate a concatenation of independent runs (each starts with a `reset` line).
 
         After a rejection the offending run is cut out and validation continues with the
@@ -280,7 +280,7 @@ class Ctx:
             p = self.path("runs%d.ndjson" % n)
             write_ndjson(p, rest)
             ok, matched, total, res = self.validate_trace(module, p, cfg=cfg, files=files, dfs=dfs,
-                                                          timeout=timeout, n_traces=0)
+                                                          timeout=timeout, n_traces=0, cfg_text=cfg_text)
             states += res.distinct
             if ok:
                 matched_total += matched
